@@ -113,9 +113,11 @@ func (n gnode) build() any {
 	if n.Enc != 0 {
 		s.SetEncap(encLists[n.Enc]...)
 	}
+	var vals []any
 	for _, k := range n.Kids {
-		s.Push(k.build())
+		vals = append(vals, k.build())
 	}
+	fill(s, vals, fillMode(n.String()))
 	if n.AsType == "alias" {
 		return StackAlias(s)
 	}
